@@ -23,8 +23,14 @@ class PyTarget:
         key = f"{t.full_name}.{t.version.major}.{t.version.minor}"
         c = self._cls.get(key)
         if c is None:
-            mod = importlib.import_module(".".join(t.full_name.split(".")[:-1]))
-            c = getattr(mod, f"{t.short_name}_{t.version.major}_{t.version.minor}")
+            parts = t.full_name.split(".")
+            v = f"_{t.version.major}_{t.version.minor}"
+            if getattr(t, "has_parent_service", False):
+                mod = importlib.import_module(".".join(parts[:-2]))
+                c = getattr(getattr(mod, parts[-2] + v), parts[-1])
+            else:
+                mod = importlib.import_module(".".join(parts[:-1]))
+                c = getattr(mod, parts[-1] + v)
             self._cls[key] = c
         return c
 
